@@ -28,10 +28,22 @@ def make_other(kind, a, md):
 
 
 def accessor_agreement(label, t, nnz_first, **sig):
+    try:
+        _accessor_agreement(label, t, nnz_first, **sig)
+    except (Abort, Unsupported):
+        raise
+    except Exception as e:      # noqa -- an accessor failing on a coherent table is itself a disagreement
+        fail(label + ':accessor-raised', f"{type(e).__name__}: {e}"[:200], **sig)
+
+
+def _accessor_agreement(label, t, nnz_first, **sig):
     """every accessor describes the same dense term matrix D (read from the representation)"""
     import numpy as np
+    dens0 = None
     if nnz_first:
         nnz = t.nnz
+    else:
+        dens0 = t.get_table_density()       # asked before anything has eliminated stored zeros
     D = dense_terms(t._data)
     oi = [str(x) for x in t.ids(axis='observation')]
     si = [str(x) for x in t.ids()]
@@ -103,6 +115,8 @@ def accessor_agreement(label, t, nnz_first, **sig):
     want = (len(nzcells) / (nr * nc)) if nr and nc else 0.0
     if abs(dens - want) > 1e-12:
         fail(label + ':density', f"{dens} vs {want}", **sig)
+    if dens0 is not None and abs(dens0 - want) > 1e-12:
+        fail(label + ':density-before-nnz', f"{dens0} vs {want}", **sig)
     if tuple(t.shape) != (nr, nc):
         fail(label + ':shape', f"{t.shape}", **sig)
     for ax, ids in (('observation', oi), ('sample', si)):
@@ -140,8 +154,8 @@ def h_step(name, nr, nc, zeros):
     note('raised', repr(e)[:80] if e is not None else None)
     nnz_first = flag('nnz-first')
     sig = dict(op=name)
-    coherent('receiver', t, **sig)
-    accessor_agreement('receiver', t, nnz_first, **sig)
+    if coherent('receiver', t, **sig):
+        accessor_agreement('receiver', t, nnz_first, **sig)
     if other is not None:
         coherent('argument', other, **sig)
     results = out if isinstance(out, list) else ([] if out is None else [out])
@@ -168,8 +182,8 @@ def h_two(name1, name2, nr, nc):
         raise Abort()       # binary second steps are covered by h_step with arbitrary states
     out2, _, e2 = _run_op(name2, OPS[name2], cur, a1, md)
     sig = dict(op1=name1, op2=name2)
-    coherent('step2:receiver', cur, **sig)
-    accessor_agreement('step2:receiver', cur, False, **sig)
+    if coherent('step2:receiver', cur, **sig):
+        accessor_agreement('step2:receiver', cur, False, **sig)
     for r in (out2 if isinstance(out2, list) else ([] if out2 is None else [out2])):
         if r is not cur and coherent('step2:result', r, **sig):
             accessor_agreement('step2:result', r, False, **sig)
@@ -181,8 +195,8 @@ def h_count_step(name, nr, nc):
     out, other, e = _run_op(name, spec, t, a, 'none')
     note('raised', repr(e)[:80] if e is not None else None)
     sig = dict(op=name)
-    coherent('receiver', t, **sig)
-    accessor_agreement('receiver', t, False, **sig)
+    if coherent('receiver', t, **sig):
+        accessor_agreement('receiver', t, False, **sig)
     if out is not None and coherent('result', out, **sig):
         accessor_agreement('result', out, True, **sig)
 
